@@ -485,6 +485,8 @@ def execute(sc, keep_log=False):
         k.stall_at_op(tasks[name], op, nth, dur)
 
     def quiescent():
+        if k.spawned_pending():
+            return False
         if not (state["fed"] == npieces and not net.inq and not raw_pipe.q and not ac_pipe.q):
             return False
         if not (t_src.wait is not None and t_src.wait[2] == "recv"):
